@@ -773,6 +773,66 @@ func ruleCleanTestsEveryChild(c *Ctx, rule string) {
 					return false
 				},
 			}).Search(an.After(in))
+			// or: the children are filtered afterwards by a predicate (slices.DeleteFunc) that says yes for a child
+			// without handlers and without children, and every path from the descent reaches that filter
+			if path != nil || deadMarks == 0 {
+				var filter ssa.Instruction
+				an.AllInstrs(g, func(t ssa.Instruction) {
+					cc := an.CallOf(t)
+					if cc == nil || an.CalleeName(cc) != "slices.DeleteFunc" || len(cc.Args) != 2 {
+						return
+					}
+					if _, isCh := fieldLoadOf(cc.Args[0], a.NodeT, a.FChildren); !isCh {
+						return
+					}
+					mc, isClosure := cc.Args[1].(*ssa.MakeClosure)
+					if !isClosure {
+						return
+					}
+					pred := mc.Fn.(*ssa.Function)
+					for _, r := range an.Returns(pred) {
+						if k, isK := an.ReturnValue(r, 0).(*ssa.Const); isK && k.Value != nil && k.Value.ExactString() == "true" {
+							if an.DominatedByEdge(r, emptyEdge(a.FHandlers)) && an.DominatedByEdge(r, emptyEdge(a.FChildren)) {
+								filter = t
+							}
+						}
+					}
+					// or the verdict is computed as an expression: the predicate looks at both the handlers and the
+					// children of its element
+					seesH, seesC := false, false
+					an.AllInstrs(pred, func(x ssa.Instruction) {
+						cc := an.CallOf(x)
+						if cc == nil || len(pred.Params) != 1 {
+							return
+						}
+						el := an.AP(pred.Params[0])
+						if b, isB := cc.Value.(*ssa.Builtin); isB && b.Name() == "len" && len(cc.Args) == 1 {
+							switch an.AP(cc.Args[0]) {
+							case el + "." + a.FChildren:
+								seesC = true
+							case el + "." + a.FHandlers:
+								seesH = true
+							}
+						}
+						if sg := an.StaticCallee(cc); sg != nil && isSizeFunc(c, sg) && len(cc.Args) == 1 && an.AP(cc.Args[0]) == el {
+							seesH = true
+						}
+					})
+					if seesH && seesC {
+						filter = t
+					}
+				})
+				if filter != nil {
+					p2 := (&an.Query{
+						Block:  func(t ssa.Instruction) bool { return t == filter },
+						Target: func(t ssa.Instruction) bool { _, isRet := t.(*ssa.Return); return isRet },
+					}).Search(an.After(in))
+					if p2 == nil {
+						path = nil
+						deadMarks++
+					}
+				}
+			}
 			o := c.R.Add(rule, c.fk(g), "descend:"+child+"/emptied-child-examined", c.pos(in), path == nil && deadMarks > 0, ifelse(path == nil && deadMarks > 0, "after the walk came back from a child, the child's handlers and children are examined and a dead child is marked for removal", "after the walk came back from a child whose subtree it may have emptied, the child is kept without a look at what is left of it: an interior node without handlers and children stays in the tree, keeps its place among its siblings, and a route registered under it later is tried before siblings that were registered earlier — Prefix.Clean differs from the Router.Remove calls it stands for"))
 			if path != nil {
 				o.Path = c.P.PathString(path)
